@@ -191,6 +191,9 @@ class PType:
         if t == "void" and self.ptr:
             self.kind = "mem"
             return
+        if (t.startswith("xsimd::batch_bool_constant<") or t.startswith("xsimd::batch_constant<")) and self.ref and not self.ptr:
+            self.kind = "tag"          # a constant passed by reference: an (empty) object in the ABI, the values are in the type
+            return
         if any(t.startswith(p) for p in _EMPTY_PREFIXES) and not self.ref and not self.ptr:
             self.kind = "empty"
             return
